@@ -225,6 +225,37 @@ impl Check for CommandScope {
     type Case = ScopeCase;
     const NAME: &'static str = "command_scope";
 
+    fn normalise(mut case: ScopeCase) -> ScopeCase {
+        case.defs = crate::props::world::normalise_defs(case.defs, true);
+        if case.instruments.is_empty() {
+            case.instruments.push(InstSpec { orders: vec![], position: PosSpec::Flat, price: PriceSpec::Unknown });
+        }
+        for i in &mut case.instruments {
+            i.orders.truncate(5);
+            for o in &mut i.orders {
+                match o {
+                    OrdSpec::Open { filled } | OrdSpec::CancelInFlightOpen { filled } => *filled %= 4,
+                    _ => {}
+                }
+            }
+            i.position = match i.position {
+                PosSpec::Flat => PosSpec::Flat,
+                PosSpec::Long(q) => PosSpec::Long(1 + q % 19),
+                PosSpec::Short(q) => PosSpec::Short(1 + q % 19),
+                PosSpec::LongReduced(q, r) => { let q = 2 + q % 18; PosSpec::LongReduced(q, 1 + r % (q - 1)) }
+                PosSpec::ShortReduced(q, r) => { let q = 2 + q % 18; PosSpec::ShortReduced(q, 1 + r % (q - 1)) }
+            };
+            i.price = match i.price {
+                PriceSpec::Unknown => PriceSpec::Unknown,
+                PriceSpec::Trade(p) => PriceSpec::Trade(1 + p % 1999),
+                PriceSpec::L1 { bid, ask } => { let bid = 1 + bid % 999; PriceSpec::L1 { bid, ask: bid + 1 + ask % 999 } }
+                PriceSpec::L1OneSided(p) => PriceSpec::L1OneSided(1 + p % 1999),
+            };
+        }
+        case
+    }
+
+
     fn strategy(_tier: Tier) -> BoxedStrategy<ScopeCase> {
         (simple_world(2..=3, 1..5), prop::collection::vec(inst_spec(), 1..8), strat::filter_spec(), any::<bool>())
             .prop_map(|(defs, instruments, filter, close_positions)| ScopeCase { defs, instruments, filter, close_positions })
